@@ -194,8 +194,11 @@ fn run() {
                         pnl_realised: parse_dec(&op[2]),
                         fees_enter: AssetFees::quote_fees(Decimal::ZERO),
                         fees_exit: AssetFees::quote_fees(Decimal::ZERO),
-                        time_enter: time_ms(2 * k as i64),
-                        time_exit: time_ms(2 * k as i64 + 1),
+                        // exit times are deliberately NOT monotone over the stream of closed positions
+                        // (two instruments may close at the same instant, an exchange may deliver an exit
+                        // late): the tear sheet of an instrument is that of its own history regardless
+                        time_enter: time_ms(10 + ((k * 7) % 5) as i64),
+                        time_exit: time_ms(11 + ((k * 7) % 5) as i64),
                         trades: vec![],
                     };
                     generator.update_from_position(&position);
